@@ -115,7 +115,9 @@ def mc_constants(scn, fixes):
     ops = flatten(scn)
     threads = [t['name'] for t in scn['threads']]
     prog = ' @@ '.join('"%s" :> %s' % (t['name'], tla_val([o['id'] for o in t['ops']])) for t in scn['threads'])
-    ndw = scn.get('max_dw', 6)
+    # DrainWaker / DoubleWaker instances the model may create: one per poll of a future by a task, with room for re-polls
+    nfut = sum(1 for r in ops.values() if r['k'] in ('fdesync', 'fsync', 'after', 'suspend', 'poll', 'await', 'wait_sync'))
+    ndw = scn.get('max_dw', max(6, 4 * nfut))
     lines = [
         'MC_OpTab == %s' % optab_tla(ops),
         'MC_Threads == {%s}' % ', '.join('"%s"' % t for t in threads),
